@@ -126,8 +126,9 @@ Inductive xcmd :=
 Definition default_options : set_options :=
   {| o_nx := false; o_xx := false; o_get := false; o_exp := None; o_keepttl := false |}.
 
-(** the while-loop of parse_set over frames[3..] *)
-Fixpoint parse_set_options (opts : list frame) (o : set_options) : option set_options :=
+(** the while-loop of parse_set over frames[3..]; [ex] / [px]: EX / PX has been seen (0e6458f: each
+    excludes the other, as in the direct command) *)
+Fixpoint parse_set_options (opts : list frame) (o : set_options) (ex px : bool) : option set_options :=
   match opts with
   | [] => Some o
   | f :: rest =>
@@ -136,35 +137,37 @@ Fixpoint parse_set_options (opts : list frame) (o : set_options) : option set_op
       | Some s =>
           let u := upper s in
           if beq u (bs "NX") then
-            parse_set_options rest {| o_nx := true; o_xx := o_xx o; o_get := o_get o; o_exp := o_exp o; o_keepttl := o_keepttl o |}
+            parse_set_options rest {| o_nx := true; o_xx := o_xx o; o_get := o_get o; o_exp := o_exp o; o_keepttl := o_keepttl o |} ex px
           else if beq u (bs "XX") then
-            parse_set_options rest {| o_nx := o_nx o; o_xx := true; o_get := o_get o; o_exp := o_exp o; o_keepttl := o_keepttl o |}
+            parse_set_options rest {| o_nx := o_nx o; o_xx := true; o_get := o_get o; o_exp := o_exp o; o_keepttl := o_keepttl o |} ex px
           else if beq u (bs "GET") then
-            parse_set_options rest {| o_nx := o_nx o; o_xx := o_xx o; o_get := true; o_exp := o_exp o; o_keepttl := o_keepttl o |}
+            parse_set_options rest {| o_nx := o_nx o; o_xx := o_xx o; o_get := true; o_exp := o_exp o; o_keepttl := o_keepttl o |} ex px
           else if beq u (bs "EX") then
+            if px then None else                             (* 0e6458f *)
             match rest with
             | [] => None
             | a :: rest' =>
                 match x_int parse_u64 a with
                 | Some n => if n =? 0 then None              (* 48bcb4d: the expire time must be positive *)
                             else parse_set_options rest'
-                              {| o_nx := o_nx o; o_xx := o_xx o; o_get := o_get o; o_exp := Some (n * 1000); o_keepttl := o_keepttl o |}
+                              {| o_nx := o_nx o; o_xx := o_xx o; o_get := o_get o; o_exp := Some (n * 1000); o_keepttl := o_keepttl o |} true px
                 | None => None
                 end
             end
           else if beq u (bs "PX") then
+            if ex then None else                             (* 0e6458f *)
             match rest with
             | [] => None
             | a :: rest' =>
                 match x_int parse_u64 a with
                 | Some n => if n =? 0 then None
                             else parse_set_options rest'
-                              {| o_nx := o_nx o; o_xx := o_xx o; o_get := o_get o; o_exp := Some n; o_keepttl := o_keepttl o |}
+                              {| o_nx := o_nx o; o_xx := o_xx o; o_get := o_get o; o_exp := Some n; o_keepttl := o_keepttl o |} ex true
                 | None => None
                 end
             end
           else if beq u (bs "KEEPTTL") then
-            parse_set_options rest {| o_nx := o_nx o; o_xx := o_xx o; o_get := o_get o; o_exp := o_exp o; o_keepttl := true |}
+            parse_set_options rest {| o_nx := o_nx o; o_xx := o_xx o; o_get := o_get o; o_exp := o_exp o; o_keepttl := true |} ex px
           else None
       end
   end.
@@ -174,7 +177,7 @@ Definition parse_set (fr : list frame) : option xcmd :=
   | _ :: k :: v :: opts =>
       match x_bytes k, x_bytes v with
       | Some kb, Some vb =>
-          match parse_set_options opts default_options with
+          match parse_set_options opts default_options false false with
           | Some o => Some (XSet kb vb o)
           | None => None
           end
@@ -241,6 +244,10 @@ Definition parse_k_pairs (c : bytes -> list (bytes * bytes) -> xcmd) (fr : list 
   | _ :: k :: ps => match x_bytes k, x_pairs ps with Some kb, Some l => Some (c kb l) | _, _ => None end
   | _ => None
   end.
+
+(** parse_setex / parse_psetex (0bd9e72): the count is refused when 0, right after it is parsed *)
+Definition parse_pos_u64 (b : bytes) : option Z :=
+  match parse_u64 b with Some n => if n =? 0 then None else Some n | None => None end.
 
 Definition parse_mset (fr : list frame) : option xcmd :=
   if (len fr <? 3) || (len fr mod 2 =? 0) then None else
@@ -354,12 +361,12 @@ Definition parse_named (name : bytes) (fr : list frame) : option xcmd :=
       else if beq name (bs "MGET") then parse_ks XMGet fr
       else if beq name (bs "MSET") then parse_mset fr
       else if beq name (bs "INCR") then parse_k XIncr fr
-      else if beq name (bs "INCRBY") then parse_k_int parse_i64 XIncrBy fr
+      else if beq name (bs "INCRBY") then parse_k_int parse_canonical XIncrBy fr        (* 5887f54 *)
       else if beq name (bs "DECR") then parse_k XDecr fr
-      else if beq name (bs "DECRBY") then parse_k_int parse_i64 XDecrBy fr
+      else if beq name (bs "DECRBY") then parse_k_int parse_canonical XDecrBy fr
       else if beq name (bs "SETNX") then parse_kv XSetNx fr
-      else if beq name (bs "SETEX") then parse_k_int_v parse_u64 (fun k n v => XSetEx k v n) fr
-      else if beq name (bs "PSETEX") then parse_k_int_v parse_u64 (fun k n v => XPSetEx k v n) fr
+      else if beq name (bs "SETEX") then parse_k_int_v parse_pos_u64 (fun k n v => XSetEx k v n) fr
+      else if beq name (bs "PSETEX") then parse_k_int_v parse_pos_u64 (fun k n v => XPSetEx k v n) fr
       else if beq name (bs "APPEND") then parse_kv XAppend fr
       else if beq name (bs "STRLEN") then parse_k XStrLen fr
       else if beq name (bs "GETSET") then parse_kv XGetSet fr
@@ -484,18 +491,7 @@ Definition eng_getrange (d : db) (k : bytes) (s e : Z) : frame :=
   | Some en => match e_val en with VStr b => r_bulk (getrange_bytes b s e) | _ => r_wrongtype end
   | None => r_bulk []
   end.
-Definition eng_setrange (d : db) (k : bytes) (off : Z) (v : bytes) : frame * db :=
-  if (max_string_len <? off) || (max_string_len - off <? len v) then (r_err, d) else
-  match get_entry d k with
-  | Some en => match e_val en with
-               | VStr b => let nb := setrange_bytes b off v in
-                           (r_int (len nb), put_entry d k {| e_val := VStr nb; e_exp := e_exp en |})
-               | _ => (r_wrongtype, d)
-               end
-  | None => if len v =? 0 then (r_int 0, d)        (* 1a8fa0e *)
-            else let nb := zeros off ++ v in
-            (r_int (len nb), put_entry d k {| e_val := VStr nb; e_exp := None |})
-  end.
+(* setrange: [Strings.eng_setrange], the engine function the direct handler calls too *)
 Fixpoint x_del_loop (d : db) (ks : list bytes) (n : Z) : Z * db :=
   match ks with
   | [] => (n, d)
